@@ -58,7 +58,13 @@ def gen_case(g):
             op["reset"] = g.chance(0.2)
             op["from_state"] = g.chance(0.3)
             op["T"] = 1 if kind == "call" else g.randint(1, 5)
-            if fail_node is not None and g.chance(0.4):
+            if kind == "run" and not single and g.chance(0.3):
+                # a batch of several sequences (list or 3-D array): reset / from_state apply to EVERY sequence of the batch
+                op["nseq"] = g.randint(2, 3)
+                op["batch"] = g.choice(["list", "3d"])
+                if g.chance(0.5):
+                    op["reset"] = True
+            elif fail_node is not None and g.chance(0.4):
                 op["fail_step"] = g.randint(0, op["T"] - 1)
         else:
             op["to_state"] = g.chance(0.3)
@@ -93,7 +99,7 @@ class FailCtl:
 def op_payload(b, case, op):
     g = common.Gen(op["seed"])
     ents = b.entries
-    T = op.get("T", 1)
+    T = op.get("T", 1) * op.get("nseq", 1)
     X = {e: flow.seq_rows(g, T, b.all_descs[e]["in_dim"]) for e in ents}
     fs = None
     if op.get("from_state"):
@@ -137,6 +143,15 @@ def exec_op(b, case, op, X, fs, ts, ctl):
     try:
         if kind == "call":
             out = tgt.call(xarg(0, 1), **kw) if single else tgt.call(xarg(0, 1), return_states="all", **kw)
+        elif kind == "run" and op.get("nseq", 1) > 1:
+            T_, k_ = op["T"], op["nseq"]
+            parts = [xarg(j * T_, (j + 1) * T_) for j in range(k_)]
+            if isinstance(parts[0], dict):
+                batch = {nm: ([p_[nm] for p_ in parts] if op["batch"] == "list" else np.stack([p_[nm] for p_ in parts])) for nm in parts[0]}
+            else:
+                batch = parts if op["batch"] == "list" else np.stack(parts)
+            outs = tgt.run(batch, return_states="all", **kw)
+            out = {nm: np.vstack([np.asarray(a_, dtype=float).reshape(T_, -1) for a_ in seqs_]) for nm, seqs_ in outs.items()}
         elif kind == "run":
             out = tgt.run(xarg(0, op["T"]), **kw) if single else tgt.run(xarg(0, op["T"]), return_states="all", **kw)
         else:       # temporary-state context around a plain run
@@ -149,7 +164,7 @@ def exec_op(b, case, op, X, fs, ts, ctl):
     finally:
         if ctl is not None:
             ctl.disarm()
-    T = op["T"]
+    T = op["T"] * op.get("nseq", 1)
     if single:
         return ("ok", {b.idx[b.nodes[0]]: np.asarray(out, dtype=float).reshape(T, -1)})
     return ("ok", {b.idx[nd]: np.asarray(out[nd.name], dtype=float).reshape(T, -1) for nd in b.mnodes})
@@ -171,7 +186,8 @@ def driver_op(b, case, op, X, fs, ts):
             fi = b.idx[b.nodes[case["fail_node"]]]
             o["fail"] = {"pre": b.order[:b.order.index(fi)]}
     else:
-        o.update({"op": "run", "seqs": [{"X": {str(e): flow.qmat(X[e]) for e in X}}]})
+        T_, k_ = op["T"], op.get("nseq", 1)
+        o.update({"op": "run", "seqs": [{"X": {str(e): flow.qmat(X[e][j * T_:(j + 1) * T_]) for e in X}} for j in range(k_)]})
         if "fail_step" in op and case["fail_node"] is not None:
             fi = b.idx[b.nodes[case["fail_node"]]]
             o["fail"] = {"step": op["fail_step"], "pre": b.order[:b.order.index(fi)]}
@@ -279,9 +295,9 @@ def check_case(ctx, case):
     corr_bad = None
     for oi, ((op, r, after, failed), mres) in enumerate(zip(results, mo[1])):
         ctx.stat("op=" + op["op"] + ("/stateless" if op.get("stateful") is False else "") + ("/failed" if failed else "")
-                 + ("/reset" if op.get("reset") else "") + ("/from_state" if op.get("from_state") else ""))
+                 + ("/reset" if op.get("reset") else "") + ("/from_state" if op.get("from_state") else "") + ("/batch" if op.get("nseq", 1) > 1 else ""))
         if not failed and op["op"] != "reset":
-            msteps = [mres["steps"]] if op["op"] == "call" else mres["steps"][0]
+            msteps = [mres["steps"]] if op["op"] == "call" else [st_ for sq_ in mres["steps"] for st_ in sq_]
             for i, arr in r[1].items():
                 for t in range(arr.shape[0]):
                     md = flow.row_diff(msteps[t][i], arr[t])
